@@ -25,6 +25,7 @@ func init() {
 			"R2 use after check: a value returned together with an error is used only where that error is known nil (dominating branch), or returned together with it. " +
 			"R3 one image: the SHA-384 operand and the image argument of every technology measurement have the same access path (Context.Image), which is never stored to in S. " +
 			"R4 every exported field of the signed messages (VMGoldenMeasurement, VMSevSnp, VMTdx, VMTdx_Measurement) has a writer in S whose value derives from the request/context source listed in the rule's table (fields outside the table must at least have a writer); exempt: VMSevSnp.CaBundle (never populated by design). " +
+			"R15 no slice of a variable that a loop overwrites on every round (a pre-1.22 range variable, an array declared before the loop) is kept from inside that loop in the measurement/sign closure: the entries put into the signed document do not alias one another. " +
 			"R5 per-count loop: the key of each stored SNP measurement is the loop variable over the requested counts and the value is LaunchDigest called with Vcpus assigned from that variable in the same iteration. " +
 			"R7 every sev.LaunchOptions object built in a function that receives the request gets Product from the request before it is used. R8 an options object created outside a loop has every field that the loop changes re-assigned before each measurement in the loop (no setting leaks from one entry to the next). R6 SignDoc: Cert, CaBundle and Timestamp are stored before the single proto.Marshal of the document and nothing is stored afterwards. " +
 			"R9 a function that assigns the SVN of one technology's request assigns the other technology's on every successful path unless that request is nil / dropped (the SVN side file reaches every endorsed technology). " +
@@ -65,6 +66,7 @@ func runC06(c *Ctx) {
 	}
 	sort.Slice(fns, func(i, j int) bool { return fns[i].Pos() < fns[j].Pos() })
 	c.S.Floor("R0", "functions in the measurement/sign closure", 40, len(fns))
+	c06NoSliceOfLoopOverwrittenVariable(c, fns)
 	sl := flow.NewSlicer(c.P)
 
 	// ---- R1 / R2 ----
@@ -1522,4 +1524,103 @@ func sameElemLoadIn(L *loop, a, b ssa.Value) bool {
 		}
 	}
 	return true
+}
+
+// c06NoSliceOfLoopOverwrittenVariable is R15: what is put into the signed document in one iteration is not changed by
+// the next. A slice taken (in a loop of the measurement / signing closure) of a variable that lives outside the loop
+// and is overwritten inside it — the range variable of a `for _, v := range` under pre-1.22 loop semantics (go.mod says
+// go 1.20), or an array declared once before the loop — and then kept (stored, appended) aliases that one variable:
+// every kept slice ends up showing the last iteration's bytes. Expected count zero; canary mutant
+// C06-slice-of-hoisted-variable.
+func c06NoSliceOfLoopOverwrittenVariable(c *Ctx, fns []*ssa.Function) {
+	nSlices, nBad := 0, 0
+	for _, f := range fns {
+		if f.Blocks == nil || c.isTestFunc(f) {
+			continue
+		}
+		loops := naturalLoops(f)
+		if len(loops) == 0 {
+			continue
+		}
+		for _, b := range f.Blocks {
+			L := innermostLoopOf(loops, b)
+			if L == nil {
+				continue
+			}
+			for _, in := range b.Instrs {
+				sl, ok := in.(*ssa.Slice)
+				if !ok {
+					continue
+				}
+				// the storage sliced: an Alloc reached through field / element addresses
+				base := sl.X
+				for i := 0; i < 6; i++ {
+					switch x := base.(type) {
+					case *ssa.FieldAddr:
+						base = x.X
+						continue
+					case *ssa.IndexAddr:
+						base = x.X
+						continue
+					}
+					break
+				}
+				al, ok := base.(*ssa.Alloc)
+				if !ok {
+					continue
+				}
+				if _, isArr := sl.X.Type().Underlying().(*types.Pointer); !isArr {
+					continue
+				}
+				nSlices++
+				// find the outermost loop that contains the slice but not the allocation, and a store into the
+				// allocation inside that loop
+				overwritten := false
+				for _, L2 := range loops {
+					if !L2.Body[b] || L2.Body[al.Block()] {
+						continue
+					}
+					for _, r := range nonDebugRefs(al) {
+						switch x := r.(type) {
+						case *ssa.Store:
+							if x.Addr == ssa.Value(al) && L2.Body[x.Block()] {
+								overwritten = true
+							}
+						case *ssa.FieldAddr, *ssa.IndexAddr:
+							for _, r2 := range nonDebugRefs(x.(ssa.Value)) {
+								if st, ok := r2.(*ssa.Store); ok && st.Addr == x.(ssa.Value) && L2.Body[st.Block()] {
+									overwritten = true
+								}
+							}
+						}
+					}
+				}
+				if !overwritten {
+					continue
+				}
+				kept := false
+				for _, r := range nonDebugRefs(sl) {
+					switch x := r.(type) {
+					case *ssa.Store:
+						if x.Val == ssa.Value(sl) {
+							kept = true
+						}
+					case *ssa.Call:
+						if bi, ok := x.Call.Value.(*ssa.Builtin); ok && bi.Name() == "append" {
+							kept = true
+						}
+					case *ssa.MakeInterface, *ssa.Phi:
+						kept = true
+					}
+				}
+				if kept {
+					nBad++
+					c.S.Bad("R15", load.FuncName(f)+":slice of a variable overwritten by the loop", c.pos(sl.Pos()), "a slice of "+al.Comment+" is kept from inside a loop that overwrites that variable on every round (it is declared outside the loop body; under go 1.20 semantics a range variable is one variable): every kept slice aliases the same storage, so all entries end up carrying the last iteration's bytes")
+				}
+			}
+		}
+	}
+	if nBad == 0 {
+		c.S.OK("R15", "measurement/sign closure:no kept slice of a loop-overwritten variable", "", fmt.Sprintf("%d slices of local arrays/structs taken inside loops examined", nSlices), false)
+	}
 }
